@@ -6,6 +6,7 @@ package rtsp
 
 import (
 	"bufio"
+	"errors"
 	"fmt"
 	"io"
 	"sort"
@@ -266,15 +267,24 @@ func (h Header) sortedKeyValues() (kvs []keyValues, hs *headerSorter) {
 	return kvs, hs
 }
 
+const (
+	// maxLineLength 一行（不含行结束符）的最大长度
+	maxLineLength = 16 * 1024
+)
+
+var errLineTooLong = errors.New("rtsp: line over the maximum length")
+
 // readLine 读取一行
 func readLine(r *bufio.Reader) (string, error) {
-	const maxLineLenght = 16 * 1024
-
 	var line []byte
 	for {
 		l, more, err := r.ReadLine()
 		if err != nil {
 			return "", err
+		}
+		// 超长的行直接拒绝，不再无限制缓存
+		if len(line)+len(l) > maxLineLength {
+			return "", errLineTooLong
 		}
 		// Avoid the copy if the first call produced a full line.
 		if line == nil && !more {
@@ -284,9 +294,6 @@ func readLine(r *bufio.Reader) (string, error) {
 		if !more {
 			break
 		}
-		// if len(line) >maxLineLenght {
-		// 	return string(line),errors.New("line over the maximum length")
-		// }
 	}
 	return string(line), nil
 }
